@@ -74,7 +74,8 @@ func main() {
 			for _, k := range []string{"rotations_judged", "rotation.nontrivial_both_halves", "rotation.background", "rotation.catchup", "restart.catchup_multi",
 				"tick.expect0", "tick.expect1", "tick.at3200", "tick.at3201", "restart.at3999", "restart.at4000",
 				"query.archived", "query.archived.fn", "fn.negated_slots", "query.live0", "query.live1", "query.future", "query.misaligned",
-				"immutability_rechecks", "reports.accepted_fresh", "reports.equivocation", "bans", "authorizations", "restarts", "file_checks"} {
+				"immutability_rechecks", "reports.accepted_fresh", "reports.equivocation", "bans", "authorizations", "restarts", "file_checks",
+				"fault.outcome_observed", "fault.restart_in_fresh_process"} {
 				c.Require(k, 1)
 			}
 		},
@@ -118,12 +119,16 @@ func plan(tier string, seed int64) []run.Batch {
 		for i := 0; i < 4; i++ {
 			bs = append(bs, run.Batch{Kind: "bigrot", Seed: seed*100000 + 9000 + int64(i), N: 1, TimeoutS: 600, Params: map[string]string{"devices": "200"}})
 		}
+		for i := 0; i < 4; i++ {
+			bs = append(bs, run.Batch{Kind: "diskfault", Seed: seed*100000 + 9500 + int64(i), N: 1, TimeoutS: 900})
+		}
 		return bs
 	}
 	for i := 0; i < 10; i++ {
 		bs = append(bs, run.Batch{Kind: "histories", Seed: seed*100000 + int64(i), N: 4, TimeoutS: 400})
 	}
 	bs = append(bs, run.Batch{Kind: "bigrot", Seed: seed*100000 + 9000, N: 1, TimeoutS: 400, Params: map[string]string{"devices": "40"}})
+	bs = append(bs, run.Batch{Kind: "diskfault", Seed: seed*100000 + 9500, N: 1, TimeoutS: 600})
 	return bs
 }
 
@@ -218,6 +223,7 @@ type hist struct {
 	first   map[int]*refenc.Stats       // first plain response served per archived week
 	ops     []string
 	opn     int
+	keepDir bool // the server directory outlives this process (disk-fault scenario)
 	dead    bool // stop this history (precondition failed / server gone)
 	fatal   bool // stop the child (a server may still be running)
 }
@@ -733,6 +739,11 @@ func neg(v uint64) uint64 { return uint64(-1 * float64(v)) }
 
 func (h *hist) getStats(q string) (int, *refenc.Stats, bool) {
 	st, stats, body, err := h.GetStats(q)
+	for try := 0; try < 3 && err != nil && st == 0; try++ {
+		// transport failure (under heavy CPU contention the server's 2.5 s read timeout can cut a fresh connection); GET is idempotent
+		time.Sleep(10 * time.Millisecond)
+		st, stats, body, err = h.GetStats(q)
+	}
 	if err != nil {
 		if st == 200 {
 			h.viol("stats-response-undecodable", map[string]interface{}{"query": q}, "status 200 but the body does not decode: %v (%.120s)", err, body)
@@ -996,6 +1007,10 @@ func (h *hist) queryRefused(class string) {
 	h.op("GET all-device-stats?%s (%s)", q, class)
 	before := h.S.VerifSnapshot(true)
 	st, body, err := h.Get("/api/v1/all-device-stats?" + q)
+	for try := 0; try < 3 && err != nil; try++ {
+		time.Sleep(10 * time.Millisecond)
+		st, body, err = h.Get("/api/v1/all-device-stats?" + q)
+	}
 	after := h.S.VerifSnapshot(true)
 	h.r.Eval(1)
 	if err != nil {
@@ -1061,7 +1076,9 @@ func (h *hist) stop() {
 			h.fatal = true
 		}
 	}
-	os.RemoveAll(h.Dir)
+	if !h.keepDir {
+		os.RemoveAll(h.Dir)
+	}
 }
 
 func newHist(b run.Batch, r *ev.Result, idx int, ndev int) *hist {
@@ -1072,7 +1089,12 @@ func newHist(b run.Batch, r *ev.Result, idx int, ndev int) *hist {
 	drv.GateRotation(true)
 	drv.GateImpact(true)
 	ra, ia := drv.RotationArrive.Load(), drv.ImpactArrive.Load()
-	dw, err := drv.NewWorld(filepath.Join(b.Dir, fmt.Sprintf("srv%d", idx)), rng)
+	dir := filepath.Join(b.Dir, fmt.Sprintf("srv%d", idx))
+	if b.P("srv") != "" {
+		dir = b.P("srv") // server directory shared by the processes of a disk-fault scenario
+		h.keepDir = true
+	}
+	dw, err := drv.NewWorld(dir, rng)
 	if err != nil {
 		r.Inconc("cannot start world: " + err.Error())
 		return nil
@@ -1131,6 +1153,16 @@ func (h *hist) stopOps(n int, bigBurst bool) {
 // week drives the clock through the rest of the current window and ends with
 // one of the week-end transitions.
 func (h *hist) week(big bool) {
+	h.walk(big)
+	if h.dead {
+		return
+	}
+	h.weekEnd(big)
+}
+
+// walk drives the clock through the rest of the current window, up to
+// now-offset = 3200, with traffic at every stop.
+func (h *hist) walk(big bool) {
 	delta := int64(drv.Clock()) - int64(h.off)
 	impLo, impHi := false, false
 	for !h.dead {
@@ -1169,6 +1201,10 @@ func (h *hist) week(big bool) {
 	if !impHi {
 		h.stepImpact()
 	}
+}
+
+// weekEnd: the boundary iteration at 3200 and one of the week-end transitions.
+func (h *hist) weekEnd(big bool) {
 	// boundary: at now-offset = 3200 the loop must not rotate
 	if h.rng.Intn(2) == 0 || big {
 		h.tick()
@@ -1214,6 +1250,12 @@ func (h *hist) week(big bool) {
 func child(b run.Batch, r *ev.Result) {
 	installHook()
 	switch b.Kind {
+	case "diskfault":
+		childDiskFault(b, r)
+	case "diskfault-a":
+		childFaultA(b, r)
+	case "diskfault-b":
+		childFaultB(b, r)
 	case "bigrot":
 		var nd int
 		fmt.Sscan(b.P("devices"), &nd)
